@@ -386,6 +386,13 @@ fire('c06-point-rewritten', 'C06', M, 'Method.UpdateOptimum', 'self.searchData.s
 fire('c06-listener-writes-item', 'C06', 'iOpt/output_system/console/console_output.py',
      'FunctionConsoleFullOutput.printIterPointInfo', 'value = savedNewPoints[0].GetZ()',
      'value = savedNewPoints[0].GetZ()\n        savedNewPoints[0].functionValues[0].value = round(value, 6)', 'R06.8')
+fire('c06-start-item-not-image', 'C06', M, 'Method.FirstIteration', _START_TRIAL[0],
+     _START_TRIAL[1] % 'Point(np.array(self.parameters.startPoint.floatVariables, dtype=np.double), None)', 'R06.5',
+     why='stored point is the user point, not GetImage(preimage)')
+fire('c06-start-item-image-but-lookup-hint', 'C06', M, 'Method.FirstIteration', _START_TRIAL[0],
+     _START_TRIAL[1] % 'Point(self.evolvent.GetImage(xs), None)', 'R06.7',
+     why='point is the image, but the hint comes from the covering lookup: xs may equal a stored coordinate')
+fire('c06-new-item-other-image', 'C06', M, 'Method.CalculateIterationPoint', 'self.evolvent.GetImage(newx)', 'self.evolvent.GetImage(old.GetX())', None)
 
 # ----------------------------------------------------------------------------- C19
 DQ = 'SearchDataDualQueue'
